@@ -43,6 +43,13 @@ CHECKS = {
             'failures (validate/get/set raising) are injected behind each of the seven front-ends and must yield exception 04.',
             'Trusts vlib/model.py classification (spec state diagrams); two simultaneous faults accept either code.',
             'DESIGN.md 4 C05'),
+    'C09': ('hypothesis request histories x 7 in-process front-ends x framings x contexts x flags x delivery groupings; oracle = independent frame parser + expected response sequence',
+            'Generated histories of well-formed requests of every kind (valid, invalid, unassigned functions, hosted/absent/'
+            'broadcast units, listen-only last) delivered one or several per read to each of the seven server front-ends driven '
+            'in-process; every write to the transport must parse as exactly one frame and the sequence of frames must be the '
+            'expected one-response-per-accepted-request sequence with the request ids.',
+            'Fake transports (one entry per send call); Twisted reactor behaviour modelled; binary histories containing delimiter bytes excluded.',
+            'DESIGN.md 4 C09'),
     'C18': ('hypothesis operation histories on blocks / slave contexts / server contexts vs a dict model; exhaustive small-block sweeps',
             'Generated histories of validate/get/set/reset on sequential and sparse blocks with boundary-directed addresses, '
             'of function-code-addressed operations on a slave context (zero-mode on/off), and of set/get/del/contains on '
